@@ -14,13 +14,44 @@ import (
 // ---------------------------------------------------------------- C06
 
 type c06Stats struct {
-	children, killed, drvPoints, vfsPoints, torn, secondCrash, inCommit int
+	children, killed, drvPoints, vfsPoints, torn, secondCrash, inCommit, realRestarts int
 }
 
 // c06Recovery checks the store after a kill, against the parent's view (built
 // from acknowledgements) and the operation that was in flight.
-func c06Recovery(w *World, db string, tracked map[string]Stored, inflight *Request, spec string) ([]Violation, map[string]Stored) {
+func c06Recovery(w *World, db string, tracked map[string]Stored, inflight *Request, spec string, reads []childRead, real bool, st *c06Stats) ([]Violation, map[string]Stored) {
 	var out []Violation
+	if real {
+		// the operator restarts the REAL binary on the crashed file first; what it serves must be old or new too
+		served, status, err := realRestart(os.Getenv("VERIF_OMNI_BIN"), db, w)
+		st.realRestarts++
+		if err != nil {
+			return []Violation{{Class: "corrupt_after_crash", Sig: "corrupt_after_crash/real_binary_restart", Detail: fmt.Sprintf("after a kill at %s the real cmd/omniwitness binary could not serve: %v", spec, err)}}, nil
+		}
+		for _, ld := range w.Logs {
+			pre := tracked[ld.ID]
+			b, has := served[ld.ID]
+			if status[ld.ID] != 200 && status[ld.ID] != 404 {
+				out = append(out, Violation{Class: "corrupt_after_crash", Sig: "corrupt_after_crash/real_binary_status", Detail: fmt.Sprintf("log %d: after a kill at %s the restarted cmd/omniwitness answers %d", ld.Idx, spec, status[ld.ID])})
+				continue
+			}
+			if has == pre.Has && string(b) == string(pre.Raw) {
+				continue
+			}
+			got := parseStored(b)
+			if inflight != nil && inflight.LogID == ld.ID && has && !got.Bad && got.Text == inflight.Text {
+				continue
+			}
+			cls := "neither_old_nor_new"
+			if pre.Has {
+				cls = "acked_update_lost"
+			}
+			out = append(out, Violation{Class: cls, Sig: cls + "/real_binary", Detail: fmt.Sprintf("log %d: after a kill at %s the restarted cmd/omniwitness binary serves {%s} (status %d); the acknowledged state was {%s}", ld.Idx, spec, cpBrief(got), status[ld.ID], cpBrief(pre))})
+		}
+		if len(out) > 0 {
+			return out, nil
+		}
+	}
 	state, logs, err := readStoreState(db, w)
 	if err != nil {
 		return []Violation{{Class: "corrupt_after_crash", Sig: "corrupt_after_crash/unreadable", Detail: fmt.Sprintf("after a kill at %s the store cannot be read: %v", spec, err)}}, nil
@@ -58,6 +89,18 @@ func c06Recovery(w *World, db string, tracked map[string]Stored, inflight *Reque
 		}
 		out = append(out, Violation{Class: cls, Sig: cls, Detail: fmt.Sprintf("log %d after a kill at %s: store holds {%s}, acknowledged state was {%s}, in flight: %v", ld.Idx, spec, cpBrief(got), cpBrief(pre), inflight != nil && inflight.LogID == ld.ID)})
 	}
+	// whatever a reader was handed just before the kill must still be in force (or superseded by a consistent larger one)
+	for _, rd := range reads {
+		ld := w.Logs[rd.Log]
+		seen, got := parseStored(rd.Out), state[ld.ID]
+		ok := got.Has && !seen.Bad && !got.Bad
+		if ok {
+			ok, _ = w.Compatible(ld.Idx, seen.Size, seen.Root, got.Size, got.Root)
+		}
+		if !ok {
+			out = append(out, Violation{Class: "acked_update_lost", Sig: "acked_update_lost/handed_to_reader", Detail: fmt.Sprintf("log %d: just before the kill at %s a reader was handed the cosigned {%s}; after restart the store holds {%s}", ld.Idx, spec, cpBrief(seen), cpBrief(got))})
+		}
+	}
 	have := map[string]bool{}
 	for _, id := range logs {
 		have[id] = true
@@ -71,7 +114,7 @@ func c06Recovery(w *World, db string, tracked map[string]Stored, inflight *Reque
 }
 
 // c06One runs one history with the given crash points (at most one per child) and the behavioural tail.
-func c06One(t *testing.T, p *Plan, planPath string, crashes []string, st *c06Stats) ([]Violation, []string) {
+func c06One(t *testing.T, p *Plan, planPath string, crashes []string, st *c06Stats, real bool) ([]Violation, []string) {
 	dir := filepath.Join(scratchRoot, fmt.Sprintf("verifsim-c06-%d-%d", os.Getpid(), runCounter.Add(1)))
 	if err := os.MkdirAll(dir, 0o700); err != nil {
 		return nil, []string{err.Error()}
@@ -82,6 +125,13 @@ func c06One(t *testing.T, p *Plan, planPath string, crashes []string, st *c06Sta
 	nHist := min(int(p.Cfg.Extra["tail_from"]), len(p.Ops))
 	tracked := map[string]Stored{}
 	from := 0
+	if real && os.Getenv("VERIF_OMNI_BIN") != "" {
+		// the store is created by the operator's first start of the REAL binary (its journal mode, its pragmas)
+		if _, _, err := realRestart(os.Getenv("VERIF_OMNI_BIN"), db, w); err != nil {
+			return []Violation{{Class: "corrupt_after_crash", Sig: "corrupt_after_crash/real_binary_first_start", Detail: "the real cmd/omniwitness binary could not start on a fresh store file: " + err.Error()}}, nil
+		}
+		st.realRestarts++
+	}
 	for ci := 0; from < nHist; ci++ {
 		spec := ""
 		if ci < len(crashes) {
@@ -122,7 +172,7 @@ func c06One(t *testing.T, p *Plan, planPath string, crashes []string, st *c06Sta
 			op := p.Ops[next]
 			inflight = resolveUpdate(w, op, tracked[w.Logs[op.L%len(w.Logs)].ID])
 		}
-		viol, state := c06Recovery(w, db, tracked, inflight, spec)
+		viol, state := c06Recovery(w, db, tracked, inflight, spec, cr.Reads, real && os.Getenv("VERIF_OMNI_BIN") != "", st)
 		if len(viol) > 0 {
 			return viol, nil
 		}
@@ -263,12 +313,13 @@ func init() {
 				out.Stats.Fired["kill_at_vfs_op"] += st.vfsPoints
 				out.Stats.Fired["torn_write_kill"] += st.torn
 				out.Stats.Probes["second_kill_in_same_history"] += st.secondCrash
+				out.Stats.Probes["restarts_by_real_cmd_omniwitness_binary"] += st.realRestarts
 				return out
 			}
 			if spec, ok := p.Cfg.Notes["crash"]; ok {
 				// one explicit crash scenario (replay)
 				crashes := strings.Split(spec, ";")
-				v, infra := c06One(t, p, planPath, crashes, st)
+				v, infra := c06One(t, p, planPath, crashes, st, p.Cfg.Notes["real"] == "1")
 				out.Viol, out.Infra = v, infra
 				out.Events = []string{"crash points: " + spec}
 				return finish()
@@ -288,7 +339,7 @@ func init() {
 				points = append(points, fmt.Sprintf("vfs:%d:clean", j), fmt.Sprintf("vfs:%d:torn:%d", j, tr.Range(0, 4200)))
 			}
 			// a crash-free run with the tail, first
-			if v, infra := c06One(t, p, planPath, nil, st); len(infra) > 0 || len(v) > 0 {
+			if v, infra := c06One(t, p, planPath, nil, st, false); len(infra) > 0 || len(v) > 0 {
 				out.Viol, out.Infra = v, infra
 				out.Evals = 1
 				return finish()
@@ -314,7 +365,28 @@ func init() {
 				default:
 					st.vfsPoints++
 				}
-				v, infra := c06One(t, p, planPath, crashes, st)
+				// for kills inside a commit (where SQLite leaves a hot journal) and a seeded few others, the REAL binary restarts first
+				real := sr.IntN(12) == 0
+				if strings.HasPrefix(pt, "drv:") {
+					var n int
+					fmt.Sscan(strings.Split(pt, ":")[1], &n)
+					if ref.DrvOps[n-1] == "Commit" {
+						real = true
+					}
+				} else {
+					var j int64
+					fmt.Sscan(strings.Split(pt, ":")[1], &j)
+					for i, o := range ref.DrvOps {
+						hi := ref.TotVFS
+						if i+1 < len(ref.DrvVFS) {
+							hi = ref.DrvVFS[i+1]
+						}
+						if o == "Commit" && j > ref.DrvVFS[i] && j <= hi && !strings.Contains(pt, "torn") && sr.IntN(3) == 0 {
+							real = true
+						}
+					}
+				}
+				v, infra := c06One(t, p, planPath, crashes, st, real)
 				out.Evals++
 				if len(infra) > 0 {
 					out.Infra = infra
@@ -338,6 +410,9 @@ func init() {
 						q.Cfg.Notes = map[string]string{}
 					}
 					q.Cfg.Notes["crash"] = strings.Join(crashes, ";")
+					if real {
+						q.Cfg.Notes["real"] = "1"
+					}
 					out.Viol, out.FailPlan = v, q
 					out.Events = []string{"crash points: " + strings.Join(crashes, ";")}
 					return finish()
@@ -366,7 +441,7 @@ func init() {
 			"internal/witness, internal/persistence/sql, database/sql, go-sqlite3 + SQLite (file-backed, one connection)": "real, in a child process",
 			"crash":   "real SIGKILL of the child at a driver-operation boundary (wrapping database/sql driver) or at a numbered VFS operation (shim SQLite VFS, clean or torn write)",
 			"restart": "fresh child process / fresh sql.DB on the same file; the behavioural tail runs the real witness in-process on the reopened file",
-			"cmd/omniwitness/monolith.go's own sql.Open line": "not executed (the harness opens SQLite the same way)",
+			"cmd/omniwitness (main, its own way of opening the store, HTTP server)": "real binary built from the tree under test, started on the crashed file for kills inside commits and a seeded sample of others, queried over loopback HTTP, then stopped",
 			"clock": "real clock in the child (nothing in this property depends on time)",
 		},
 		Assumptions: []string{"process kill, not power loss: the OS page cache survives, so loss or reordering of unsynced writes is not modelled", "the child is single-goroutine on the storage path, so operation numbering is a pure function of the plan (verified per history by two traced runs)", "replay of a C06 finding re-runs the same history with the same kill points in fresh child processes"},
